@@ -643,6 +643,8 @@ type VR interface {
 	VerifyTOC(d digest.Digest) error
 	Skip()
 	Cache(filter func(int64) bool) error
+	// CacheReader = Cache(WithReader(sr)): what layer.backgroundFetch does.
+	CacheReader(sr *io.SectionReader) error
 	// ReadAndCache runs readAndCache for ONE chunk; supported=false when the adapter cannot reach it.
 	ReadAndCache(id uint32, r io.Reader, off, size int64, dgst string) (err error, supported bool)
 	OpenFile(id uint32) (io.ReaderAt, error)
@@ -702,7 +704,15 @@ type Session struct {
 	TocOK          []digest.Digest // digests the oracle accepts for the TOC actually used
 	VerifiedOK     bool            // a VerifyTOC succeeded
 	UsedUnverified bool            // data was read through the reader before that
-	Tag            string
+	// CloneTainted: a Cache(WithReader) walk compared a chunk with a digest that is not the one of the
+	// TOC parsed at open time and found it matching (memory store: Clone re-parses the TOC and
+	// nobody checks its digest).  Violations after that carry their own signature.
+	CloneTainted bool
+	Tag          string
+	// LayerLevel: the VR is a layer object (layer.Verify / SkipVerify / l.r): op lines are "l.*"
+	// and every reader handed out after a successful Verify must behave as verified.
+	LayerLevel    bool
+	SkipEffective bool // SkipVerify was called while the layer had no reader yet
 }
 
 func (s *Session) Close() {
@@ -1091,7 +1101,19 @@ func (s *Session) expected(c *Chunk) []byte {
 
 // disciplined: the reader was verified and never handed out data before that (what a layer object
 // guarantees for a reader acquired through Verify).
-func (s *Session) disciplined() bool { return s.VerifiedOK && !s.UsedUnverified }
+func (s *Session) disciplined() bool {
+	if s.LayerLevel {
+		return s.VerifiedOK
+	}
+	return s.VerifiedOK && !s.UsedUnverified
+}
+
+func (s *Session) pfx() string {
+	if s.LayerLevel {
+		return "l."
+	}
+	return "r."
+}
 
 // checkData evaluates the property on bytes returned for [off, off+len(data)) of file f.
 func (s *Session) checkData(f *File, off int64, data []byte, how string) bool {
@@ -1106,12 +1128,22 @@ func (s *Session) checkData(f *File, off int64, data []byte, how string) bool {
 		if exp == nil || !bytes.Equal(got, exp[lo-c.Off:hi-c.Off]) {
 			okAll = false
 			if s.disciplined() {
-				s.Out.Fail("altered-bytes-returned", fmt.Sprintf("%s: %s of %q [%d,%d) chunk@%d (%s/%s/%s view=%s open=%s) returned bytes the TOC does not pin",
+				s.Out.Fail(s.sig("altered-bytes-returned"), fmt.Sprintf("%s: %s of %q [%d,%d) chunk@%d (%s/%s/%s view=%s open=%s) returned bytes the TOC does not pin",
 					s.Tag, how, f.Name, lo, hi, c.Off, s.B.Comp, s.CKind, s.stackInfo(), s.Cur.Kind, s.Open.Kind))
 			}
 		}
 	}
 	return okAll
+}
+
+// CloneSig is the signature of violations that follow a clone walk with an unverified foreign TOC.
+const CloneSig = "clone-prefetch-unverified-toc"
+
+func (s *Session) sig(generic string) string {
+	if s.CloneTainted {
+		return CloneSig
+	}
+	return generic
 }
 
 func (s *Session) stackInfo() string { return fmt.Sprintf("chunk=%d,min=%d", s.B.ChunkSize, s.B.MinChunk) }
@@ -1149,7 +1181,7 @@ entries:
 				continue entries
 			}
 		}
-		s.Out.Fail("altered-bytes-cached", fmt.Sprintf("%s: after %s the chunk cache of a verified reader holds %d bytes (sha256 %s…) matching no digest of the TOC (%s/%s/%s view=%s open=%s)",
+		s.Out.Fail(s.sig("altered-bytes-cached"), fmt.Sprintf("%s: after %s the chunk cache of a verified reader holds %d bytes (sha256 %s…) matching no digest of the TOC (%s/%s/%s view=%s open=%s)",
 			s.Tag, after, len(e), hex.EncodeToString(sha(e))[:12], s.B.Comp, s.CKind, s.stackInfo(), s.Cur.Kind, s.Open.Kind))
 		return
 	}
@@ -1215,12 +1247,15 @@ func (s *Session) oracleAccepts(d digest.Digest) bool {
 func (s *Session) Verify(d digest.Digest) error {
 	arg := s.DigestArg(d)
 	err := s.VR.VerifyTOC(d)
-	s.Out.Emit("r.verify "+arg, okerr(err))
+	s.Out.Emit(s.pfx()+"verify "+arg, okerr(err))
 	s.Out.Count("verify-" + arg + "-" + okerr(err))
 	if err == nil {
 		if !s.oracleAccepts(d) {
 			s.Out.Fail("verify-wrong-digest-accepted", fmt.Sprintf("%s: VerifyTOC(%s) succeeded but the TOC JSON actually used hashes to %v (%s open=%s)",
 				s.Tag, d, s.TocOK, s.B.Comp, s.Open.Kind))
+		}
+		if s.LayerLevel && s.SkipEffective {
+			s.Out.Fail("verify-after-skip-accepted", fmt.Sprintf("%s: layer.Verify(%s) succeeded on a layer object that was already served without verification", s.Tag, d))
 		}
 		s.VerifiedOK = true
 		s.CheckCache("verify")
@@ -1229,8 +1264,11 @@ func (s *Session) Verify(d digest.Digest) error {
 }
 
 func (s *Session) Skip() {
+	if s.LayerLevel && !s.VerifiedOK {
+		s.SkipEffective = true
+	}
 	s.VR.Skip()
-	s.Out.Emit("r.skip", "ok")
+	s.Out.Emit(s.pfx()+"skip", "ok")
 }
 
 // Prefetch = readAndCache of one chunk.
@@ -1250,7 +1288,7 @@ func (s *Session) Prefetch(c *Chunk) bool {
 			return false
 		}
 	}
-	s.Out.Emit(fmt.Sprintf("r.prefetch %d %c", c.Gid, st), okerr(err))
+	s.Out.Emit(fmt.Sprintf("%sprefetch %d %c", s.pfx(), c.Gid, st), okerr(err))
 	s.Out.Count(fmt.Sprintf("prefetch-%c-%s", st, okerr(err)))
 	s.CheckCache("prefetch")
 	return true
@@ -1290,10 +1328,74 @@ func (s *Session) CacheAll(sel map[int]bool) error {
 	offs, cs := s.selection(sel)
 	items := s.items(cs)
 	err := s.VR.Cache(func(o int64) bool { return offs == nil || offs[o] })
-	s.Out.Emit(fmt.Sprintf("r.cache %s cached=%s", items, s.cachedList(cs)), okerr(err))
+	s.Out.Emit(fmt.Sprintf("%scache %s cached=%s", s.pfx(), items, s.cachedList(cs)), okerr(err))
 	s.Out.Count("cache-" + okerr(err))
 	s.CheckCache("cache")
 	return err
+}
+
+// CacheClone = VerifiableReader.Cache(WithReader(sr)) with sr serving view v (layer.backgroundFetch
+// reads the blob through another reader).  Returns false when the op was not generated (the clone
+// lays the chunks out differently, so the walk would use other cache keys).
+func (s *Session) CacheClone(v *View) bool {
+	src2 := &Src{}
+	src2.Set(v.Blob)
+	cur := s.Cur
+	s.setEx(v.Ext) // the external TOC provider is shared by the clone
+	defer s.setEx(cur.Ext)
+	mk := func() *io.SectionReader { return io.NewSectionReader(src2, 0, int64(len(v.Blob))) }
+	mr2, err := s.MR.Clone(mk())
+	if err != nil {
+		err2 := s.VR.CacheReader(mk())
+		s.Out.Emit(s.pfx()+"clone.err", okerr(err2))
+		s.Out.Count("clone-refused")
+		return true
+	}
+	var items []string
+	taint := false
+	for _, c := range s.Chs {
+		fr, err := mr2.OpenFile(c.File.ID)
+		if err != nil {
+			return false
+		}
+		co, cs, dg2, ok := fr.ChunkEntryForOffset(c.Off)
+		if !ok || co != c.Off || cs != c.Size {
+			return false
+		}
+		buf := make([]byte, c.Size)
+		_, rerr := fr.ReadAt(buf, c.Off)
+		if rerr == io.EOF {
+			rerr = nil
+		}
+		st := classify(buf, rerr, c.Dgst)
+		k := byte('x')
+		if dg2 == c.Dgst {
+			k = 'o'
+		} else if d2, perr := digest.Parse(dg2); perr != nil {
+			k = 'n'
+		} else if rerr == nil && digest.FromBytes(buf) == d2 {
+			k = 'm'
+			if st != 'g' {
+				taint = true
+			}
+		}
+		items = append(items, fmt.Sprintf("%d:%c:%c", c.Gid, st, k))
+	}
+	for _, f := range s.Files { // same files, same sizes
+		a, err := mr2.GetAttr(f.ID)
+		if err != nil || a.Size != f.Size {
+			return false
+		}
+	}
+	if taint {
+		s.CloneTainted = true
+		s.Out.Count("clone-foreign-toc-matching")
+	}
+	err = s.VR.CacheReader(mk())
+	s.Out.Emit(fmt.Sprintf("%sclone %s cached=%s", s.pfx(), dash(strings.Join(items, ",")), s.cachedList(s.Chs)), okerr(err))
+	s.Out.Count("clone-" + v.Kind + "-" + okerr(err))
+	s.CheckCache("clone-prefetch")
+	return true
 }
 
 // Race = Cache() and VerifyTOC(d) in two goroutines.  pause shakes the schedule.
@@ -1364,8 +1466,16 @@ func (s *Session) cleanByCache(cs []*Chunk, f *File, off int64, data []byte) boo
 	return true
 }
 
+// hidden: the node tree of a layer does not show the landmark files of the root directory.
+func (s *Session) hidden(f *File) bool {
+	return s.LayerLevel && (f.Name == estargz.PrefetchLandmark || f.Name == estargz.NoPrefetchLandmark)
+}
+
 // Read = Reader.OpenFile(f).ReadAt(p[:n], off).
 func (s *Session) Read(f *File, off, n int64) error {
+	if s.hidden(f) {
+		return nil
+	}
 	if n > f.Size-off {
 		n = f.Size - off
 	}
@@ -1374,7 +1484,7 @@ func (s *Session) Read(f *File, off, n int64) error {
 	}
 	cs := s.touched(f, off, n)
 	steps := s.steps(cs)
-	if !s.VerifiedOK {
+	if !s.VerifiedOK && !s.LayerLevel {
 		s.UsedUnverified = true
 	}
 	ra, err := s.VR.OpenFile(f.ID)
@@ -1398,7 +1508,7 @@ func (s *Session) Read(f *File, off, n int64) error {
 			res = "ok dirty"
 		}
 	}
-	s.Out.Emit("r.read "+steps, res)
+	s.Out.Emit(s.pfx()+"read "+steps, res)
 	s.Out.Count("read-" + strings.ReplaceAll(strings.SplitN(res, "=", 2)[0], " ", "-"))
 	s.CheckCache("read")
 	return err
@@ -1406,6 +1516,14 @@ func (s *Session) Read(f *File, off, n int64) error {
 
 // Pass = GetPassthroughFd on f (then the file is read back through the fd).
 func (s *Session) Pass(f *File, mergeBuf int64, workers int) error {
+	if s.CKind == "dir" {
+		// whether the directory cache hands out an *os.File depends on its in-memory LRU and on
+		// how each entry was added (cache.Direct()); passthrough is driven on mem and dirdirect
+		return nil
+	}
+	if s.hidden(f) {
+		return nil
+	}
 	steps := s.steps(f.Chunks)
 	if !s.VerifiedOK {
 		s.UsedUnverified = true
@@ -1430,7 +1548,7 @@ func (s *Session) Pass(f *File, mergeBuf int64, workers int) error {
 			cr.Close()
 		}
 	}
-	s.Out.Emit(fmt.Sprintf("r.pass %d %s %s", f.Idx, kind, steps), okerr(err))
+	s.Out.Emit(fmt.Sprintf("%spass %d %s %s", s.pfx(), f.Idx, kind, steps), okerr(err))
 	s.Out.Count("pass-" + kind + "-" + okerr(err))
 	s.CheckCache("passthrough")
 	return err
@@ -1438,7 +1556,16 @@ func (s *Session) Pass(f *File, mergeBuf int64, workers int) error {
 
 // ReadFd = what the whole-file cache entry of f serves.
 func (s *Session) ReadFd(f *File) {
+	if s.hidden(f) {
+		return
+	}
 	b, ok := s.cacheBytes(s.VR.GenID(f.ID, 0, f.Size))
+	if ok && s.LayerLevel {
+		// an fd is only ever obtained through a file opened on the reader of the layer
+		if _, err := s.VR.OpenFile(f.ID); err != nil {
+			ok = false
+		}
+	}
 	res := "err"
 	if ok {
 		if !s.VerifiedOK {
@@ -1458,6 +1585,6 @@ func (s *Session) ReadFd(f *File) {
 			res = "ok dirty"
 		}
 	}
-	s.Out.Emit(fmt.Sprintf("r.readfd %d", f.Idx), res)
+	s.Out.Emit(fmt.Sprintf("%sreadfd %d", s.pfx(), f.Idx), res)
 	s.Out.Count("readfd-" + strings.ReplaceAll(res, " ", "-"))
 }
